@@ -273,13 +273,16 @@ package route
 //@ ghost copied(ref) int
 //@ ghost respHeader(ref) http.Header
 //@ assume net/http.NewRequest
-//@   ensures result1 == nil ==> result0 != nil && isFresh(result0) && result0.Method == method && reqURL(result0) == url && content(result0.Body) == content(body) && (forall k string :: !in(result0.Header, k))
+//@   ensures result1 == nil ==> result0 != nil && isFresh(result0) && result0.Method == method && reqURL(result0) == url && content(result0.Body) == content(body)
+//@   ensures[new-request-has-no-headers@C37] result1 == nil ==> (forall k string :: !in(result0.Header, k))
 //@ assume net/http.(*Request).WithContext
-//@   ensures result != nil && isFresh(result) && result.Method == r.Method && reqURL(result) == reqURL(r) && toInt(result.Body) == toInt(r.Body) && result.Header == r.Header && result.RemoteAddr == r.RemoteAddr
+//@   ensures result != nil && isFresh(result) && result.Method == r.Method && reqURL(result) == reqURL(r) && toInt(result.Body) == toInt(r.Body) && result.RemoteAddr == r.RemoteAddr
+//@   ensures[same-headers@C37] result.Header == r.Header
 //@ assume net/url.(*URL).String getter
 //@ assume net/http.(*Client).Do
 //@   ghostupdate doN(c), doReq(c), doResp(c) :: doN(c) == old(doN(c)) + 1 && toInt(doReq(c)) == toInt(req) && toInt(doResp(c)) == toInt(result0)
-//@   ensures result1 == nil ==> result0 != nil && result0.Body != nil && (forall k string :: in(result0.Header, k) ==> canonHeader(k) == k)
+//@   ensures result1 == nil ==> result0 != nil && result0.Body != nil
+//@   ensures[response-header-names-are-canonical@C37] result1 == nil ==> (forall k string :: in(result0.Header, k) ==> canonHeader(k) == k)
 //@ assume io.Copy
 //@   ghostupdate copyN(dst), copied(dst) :: copyN(dst) == old(copyN(dst)) + 1 && copied(dst) == content(src)
 //@ assume io.Closer.Close
